@@ -41,7 +41,7 @@ func genC16(r *Rng, tier string, idx int) *Plan {
 	p.Spec.LogLevel = []string{"", "error", "debug"}[r.Intn(3)]
 	for i := range p.Spec.Filters {
 		f := &p.Spec.Filters[i]
-		switch (idx + i) % 4 {
+		switch r.Intn(4) {
 		case 0:
 			f.Discovery, f.JWKSFetch = false, false
 		case 1:
